@@ -341,6 +341,21 @@ pub fn run(ctx: &mut Ctx) {
                 }
             }
         }
+        if ctx.mine(item) && r.has_corner_pattern() {
+            // every subset of the four fixed-corner modules flipped
+            let (h, w) = (r.map_rows(), r.map_cols());
+            let cells = [(h - 2) * w + w - 2, (h - 2) * w + w - 1, (h - 1) * w + w - 2, (h - 1) * w + w - 1];
+            for maskbits in 1..16u8 {
+                let mut a = base.clone();
+                for (k, c) in cells.iter().enumerate() {
+                    if maskbits & (1 << k) != 0 {
+                        let p = symbol_pos(r, *c);
+                        a[p] = !a[p];
+                    }
+                }
+                eval_array(ctx, &a, r.cols, "corner_pattern_subsets");
+            }
+        }
         if ctx.mine(item) {
             structured_deviations(ctx, r, &base);
             // three-valued module type: every single structural or data module replaced by a third value (sampled for big symbols)
@@ -389,6 +404,16 @@ pub fn run(ctx: &mut Ctx) {
             let a = vec![false; len];
             eval_array(ctx, &a, w, "width_len_grid");
         }
+    }
+    // oversized arrays (more pixels than the largest symbol): the error class must still follow width / length
+    if ctx.shard == 0 {
+        for w in [1usize, 7, 100, 143, 144, 145, 150, 1000, 20737] {
+            for len in [20735usize, 20736, 20737, 20738, 20880, 21025, 30000, 30001, 100000, 100001] {
+                let a = vec![len % 2 == 0; len];
+                eval_array(ctx, &a, w, "oversized_arrays");
+            }
+        }
+        eval_array(ctx, &vec![true; 30000], 0, "oversized_arrays");
     }
     // off-by-one neighbours of all 48 dimensions
     for (i, r) in CAT.iter().enumerate() {
